@@ -481,7 +481,7 @@ func init() {
 	register(&World{
 		Name:  "stream",
 		Level: "exploration",
-		Rule: "each evaluation draws a byte string from a protocol-biased token alphabet, an end (clean EOF or injected read error at a chosen offset), an entry point (Read / Connection) and a segmentation; streams of at most 48 bytes are additionally run whole, byte-at-a-time and with every single cut point. " +
+		Rule: "each evaluation draws a byte string from a protocol-biased token alphabet, an end (clean EOF or injected read error at a chosen offset, plain or wrapping / matching io.EOF and other sentinels, alone or together with the last bytes), an entry point (Read / Connection), a buffer configuration that is large enough to change nothing, and a segmentation; a quarter of the Read runs range over the sequence a second time; streams of at most 48 bytes are additionally run whole, byte-at-a-time and with every single cut point. " +
 			"A case is non-trivial when the stream has at least one complete line and two bytes; distinct = distinct (stream bytes, end kind, entry).",
 		Real: []string{"sse.Read", "internal/parser (splitFunc, FieldParser, Parser)", "event.go read()", "Client/Connection.Connect single attempt", "net/http.Client"},
 		Stub: []string{"io.Reader serving chooser-sized chunks (simReader)", "http.RoundTripper returning one scripted 200 response"},
